@@ -593,7 +593,7 @@ _FILLERS = ("\n", "    \n", COMMENT + "\n", "        " + COMMENT + "\n", "\f\n",
 def r_blank_comment(src):
     rows = src.rows
     for i in range(len(rows) + 1):
-        for fill in _FILLERS:
+        for fill in _FILLERS if i == 0 else _FILLERS[:4]:
             yield "".join(rows[:i]) + fill + "".join(rows[i:])
     for t in src.toks:
         if t.type in (T.NEWLINE, T.NL) and t.string:
@@ -622,14 +622,13 @@ def r_bracket_newline(src):
 def r_eol(src):
     t = src.text
     yield t.replace("\n", "\r\n")
-    if t.endswith("\n"):
-        yield t[:-1]
     yield t.replace("\n", "\r")
 
 
 def r_edges(src):
     t = src.text
     if t.endswith("\n"):
+        yield t[:-1]
         yield t[:-1] + "  "
         yield t[:-1] + " " + COMMENT
         yield t[:-1] + "\\\n"
@@ -690,7 +689,7 @@ RULES = {
     "elif": (r_elif, "site"),
 }
 # the light catalogue (for the bulk of the larger canonical programs): rule -> max instances taken
-LIGHT = {"compact": 1, "paren-remove": 99, "with-parens": 2, "import-parens": 2, "inline-body": 1, "indent": 2, "eol": 2, "elif": 99}
+LIGHT = {"compact": 1, "paren-remove": 99, "with-parens": 2, "import-parens": 2, "inline-body": 1, "indent": 2, "eol": 1, "elif": 99}
 
 
 def rewrites(text, rules=None, light=False):
